@@ -243,16 +243,21 @@ Qed.
 (** * Sequences of values *)
 
 Lemma var_get_n_roundtrip nbin vs :
-  0 <= nbin -> parses (var_get_n (length vs) nbin) (flat_map (var_put nbin) vs) vs.
+  0 <= nbin -> forallb fits32 vs = true ->
+  parses (var_get_n_chk (length vs) nbin) (flat_map (var_put nbin) vs) vs.
 Proof.
-  intros Hn. induction vs as [|v vs IH].
+  intros Hn. induction vs as [|v vs IH]; intros Hf.
   - apply (parses_ret []).
-  - simpl flat_map. simpl length.
+  - cbn [forallb] in Hf. apply andb_true_iff in Hf. destruct Hf as [Hv Hf].
+    simpl flat_map. simpl length.
     apply (parses_bind (var_get nbin)
-             (fun v r => do '(vs, r') <- var_get_n (length vs) nbin r ;; Ok (v :: vs, r'))
+             (fun v r => if fits32 v then
+                           do '(vs, r') <- var_get_n_chk (length vs) nbin r ;; Ok (v :: vs, r')
+                         else Err EUnspec)
              (var_put nbin v) (flat_map (var_put nbin) vs) v (v :: vs)).
     + now apply var_roundtrip_l.
-    + apply (parses_map (var_get_n (length vs) nbin) (cons v)). exact IH.
+    + eapply parses_ext; [intros bs; rewrite Hv; reflexivity|].
+      apply (parses_map (var_get_n_chk (length vs) nbin) (cons v)). now apply IH.
 Qed.
 
 Lemma skip_n_roundtrip xs :
